@@ -1,8 +1,207 @@
-import AsmjitVerif.Model.JitAlloc
+/-
+C09 — JitAllocator never hands out overlapping, misaligned or corrupted memory.
+
+Theorems about the model `Model/JitAlloc.lean` (tied to jitallocator.cpp by the correspondence run of tools/props/c09.py), for EVERY
+history of protocol operations (alloc / release / shrink / query / stale shrink / write / write-with-truncation / read / reset /
+foreign pointers) and EVERY configuration `JitAllocator_new_impl` can produce.  `Inv` (Lemmas/JitAllocInv.lean) ties, per block,
+the `used` and `stop` bit vectors, `area_used`, the kFlagEmpty / kFlagIncremental flags and the incremental-mode cache to the table of
+spans the caller holds; the proof is by induction over the history (`Inv.step`, Lemmas/JitAllocStep.lean).
+
+Not proved here (only tested by the correspondence + monitor, see notes/C09.md): `query` of interior addresses (`spanStart`), the
+pool/global statistics as sums over blocks, the retention policy (number of empty blocks), the search-window cache
+(`search_start/search_end/largest_unused_area` outside incremental mode) and with it "released memory is found again", contents /
+fill pattern of memory.  Full-strength statement of the part that is still open:
+  theorem reusable : Inv s → (a free run of n granules exists in a block of the pool that serves `size`) → `alloc size` maps no new block
+-/
+import AsmjitVerif.Lemmas.JitAllocStep
 import AsmjitVerif.Spec.JitAlloc
 namespace AsmjitVerif.JitAlloc
 
-theorem placeholder_initialized (c : Config) (s : St) (h : s.a.cfg.blockSize ≠ 0) : (step s .isinit).2 = .flag true := by
-  simp [step, h]
+/-- a state is reachable when some history leads to it from a freshly constructed allocator -/
+def Reachable (s : St) : Prop := ∃ cfg ops, WF cfg ∧ s = finalState (St.init cfg) ops
+
+/-- **Invariant for all histories**: after any sequence of operations on an allocator of any valid configuration the bookkeeping
+(bit vectors, counters, flags, incremental cache) describes exactly the spans the caller holds. -/
+theorem inv_all_histories (cfg : Config) (hwf : WF cfg) (ops : List Op) : Inv (finalState (St.init cfg) ops) :=
+  (Inv.init cfg hwf).finalState ops
+
+/-- every configuration the constructor builds (any options, granularity, block size, pattern words) is covered -/
+theorem inv_all_configs (opts gran blockSize pattern : Nat) (ops : List Op) :
+    Inv (finalState (St.init (mkConfig opts gran blockSize pattern)) ops) :=
+  inv_all_histories _ (mkConfig_wf _ _ _ _) ops
+
+theorem reachable_inv {s : St} (h : Reachable s) : Inv s := by
+  obtain ⟨cfg, ops, hwf, rfl⟩ := h
+  exact inv_all_histories cfg hwf ops
+
+/-- **Disjointness**: any two different live spans of the same block occupy disjoint byte ranges (both views of a block share
+offsets, so this is disjointness in the executable and in the writable view). -/
+theorem live_spans_disjoint {s : St} (h : Reachable s) {i j : Nat} {h1 h2 : Handle} (hij : i ≠ j)
+    (e1 : s.tab[i]? = some h1) (e2 : s.tab[j]? = some h2) (l1 : h1.live = true) (l2 : h2.live = true) (hb : h1.blk = h2.blk) :
+    h1.off + h1.size ≤ h2.off ∨ h2.off + h2.size ≤ h1.off := by
+  have hI := reachable_inv h
+  rcases Nat.lt_or_gt_of_ne hij with c | c
+  · exact hI.tdisj i j h1 h2 c e1 e2 l1 l2 hb
+  · have := hI.tdisj j i h2 h1 c e2 e1 l2 l1 hb.symm; omega
+
+/-- **Non-null, aligned, inside, never in the padding**: every live span lies in a block that still exists, starts at a multiple of
+the base granularity (and of its pool's granularity), has a positive size that is a multiple of the granularity, ends inside the
+block's area and starts behind the padding granule when padding is enabled. -/
+theorem live_span_wellformed {s : St} (h : Reachable s) {i : Nat} {hd : Handle} (e : s.tab[i]? = some hd) (l : hd.live = true) :
+    ∃ b ∈ s.a.blocks, b.id = hd.blk ∧ hd.off % s.a.cfg.gran = 0 ∧ hd.size % s.a.cfg.gran = 0 ∧ 0 < hd.size ∧
+      hd.off + hd.size ≤ b.areaSize * s.a.cfg.poolGran b.pool ∧ (b.pad = true → s.a.cfg.poolGran b.pool ≤ hd.off) := by
+  have hI := reachable_inv h
+  obtain ⟨b, hb, eb, st, n, o1, o2⟩ := hI.owned i hd e l
+  have hg := poolGran_pos hI.wf b.pool
+  obtain ⟨i1, i2, i3⟩ := (hI.blk b hb).1.inside st n ⟨i, hd, e, l, eb.symm, o1, o2⟩
+  refine ⟨b, hb, eb, ?_, ?_, ?_, ?_, ?_⟩
+  · rw [o1]; unfold Config.poolGran; rw [← Nat.mul_assoc, Nat.mul_right_comm]; exact Nat.mul_mod_left _ _
+  · rw [o2]; unfold Config.poolGran; rw [← Nat.mul_assoc, Nat.mul_right_comm]; exact Nat.mul_mod_left _ _
+  · rw [o2]; exact Nat.mul_pos i2 hg
+  · rw [o1, o2, ← Nat.add_mul]; exact Nat.mul_le_mul_right _ i3
+  · intro hp
+    rw [padN_pos b hp] at i1
+    rw [o1]
+    calc s.a.cfg.poolGran b.pool = 1 * s.a.cfg.poolGran b.pool := (Nat.one_mul _).symm
+      _ ≤ st * s.a.cfg.poolGran b.pool := Nat.mul_le_mul_right _ i1
+
+/-- **Bit vectors are exact**: in every reachable state a granule is marked used iff it is the padding granule or lies in a live
+span, and is marked stop iff it is the padding granule or the last granule of a live span — the bookkeeping is never corrupted. -/
+theorem bitvectors_exact {s : St} (h : Reachable s) {b : Block} (hb : b ∈ s.a.blocks) (i : Nat) (hi : i < b.areaSize) :
+    (bit b.used i = true ↔ (b.pad = true ∧ i = 0) ∨
+      ∃ st n, Spans s.tab b.id (s.a.cfg.poolGran b.pool) st n ∧ st ≤ i ∧ i < st + n) ∧
+    (bit b.stop i = true ↔ (b.pad = true ∧ i = 0) ∨
+      ∃ st n, Spans s.tab b.id (s.a.cfg.poolGran b.pool) st n ∧ i + 1 = st + n) := by
+  have hB := ((reachable_inv h).blk b hb).1
+  exact ⟨hB.used i hi, hB.stop i hi⟩
+
+/-- **Per-block accounting is exact**: `area_used` is the number of granules marked used; a block flagged empty holds no span;
+in incremental mode everything from `search_start` on is free and `largest_unused_area` is exactly that tail. -/
+theorem block_accounting_exact {s : St} (h : Reachable s) {b : Block} (hb : b ∈ s.a.blocks) :
+    b.areaUsed = b.used.count true ∧
+    (b.empty = true → ∀ st n, ¬ Spans s.tab b.id (s.a.cfg.poolGran b.pool) st n) ∧
+    (b.incremental = true → (∀ i, b.searchStart ≤ i → bit b.used i = false) ∧ b.largest = b.areaSize - b.searchStart) := by
+  obtain ⟨hB, hC⟩ := (reachable_inv h).blk b hb
+  refine ⟨hC.cnt, ?_, ?_⟩
+  · intro he
+    exact no_spans_of_unused hB.toBCore hC (hC.emp he)
+  · intro hi
+    obtain ⟨_, h2, h3, _⟩ := hB.incr hi
+    exact ⟨h2, h3⟩
+
+/-- **Allocation succeeds and is at least as large as requested**: a request of 1 .. 2^31-1 bytes (after rounding) is never refused
+(the model's virtual memory never runs out), the span is recorded as handed out, and it is at least as large as the request. -/
+theorem alloc_ok {s : St} (h : Reachable s) (req : Nat) (h0 : alignUp req s.a.cfg.gran ≠ 0)
+    (hmax : ¬ alignUp req s.a.cfg.gran - 1 ≥ 2147483647) :
+    ∃ sp, (step s (.alloc req)).2 = .span sp ∧ req ≤ sp.size ∧
+      (step s (.alloc req)).1.tab = s.tab ++ [{ live := true, blk := sp.blk, off := sp.off, size := sp.size }] := by
+  have hI := reachable_inv h
+  obtain ⟨sp, h1, h2⟩ := allocIn_spec (req := req) hI.toAInv hI.spans_fresh h0 (alignUp_ge _ _ hI.wf.1) (alignUp_mod _ _)
+  obtain ⟨idx, k, _, _, _, hreq, _⟩ := h2
+  refine ⟨sp, ?_, hreq, ?_⟩
+  all_goals
+    simp only [step, Alloc.alloc, h0, hmax, if_false]
+    rcases hr : s.a.allocIn (alignUp req s.a.cfg.gran) with ⟨a', (e | sp')⟩
+    · rw [hr] at h1; simp at h1
+    · rw [hr] at h1; simp at h1; subst h1; rfl
+
+/-- the new span is disjoint from every span that was live before, is aligned and lies inside its block
+(corollary of the invariant of the successor state) -/
+theorem alloc_span_fresh {s : St} (h : Reachable s) (req : Nat) (sp : SpanOut) (hs : (step s (.alloc req)).2 = .span sp)
+    {i : Nat} {hd : Handle} (e : s.tab[i]? = some hd) (l : hd.live = true) (hb : hd.blk = sp.blk) :
+    hd.off + hd.size ≤ sp.off ∨ sp.off + sp.size ≤ hd.off := by
+  obtain ⟨cfg, ops, hwf, rfl⟩ := h
+  have hR : Reachable (step (finalState (St.init cfg) ops) (.alloc req)).1 := by
+    refine ⟨cfg, ops ++ [.alloc req], hwf, ?_⟩
+    have : ∀ (s0 : St) (l1 : List Op) (op : Op), finalState s0 (l1 ++ [op]) = (step (finalState s0 l1) op).1 := by
+      intro s0 l1 op
+      induction l1 generalizing s0 with
+      | nil => rfl
+      | cons x xs ih => simp only [List.cons_append, finalState]; exact ih _
+    rw [this]
+  generalize finalState (St.init cfg) ops = s at *
+  have htab : (step s (.alloc req)).1.tab = s.tab ++ [{ live := true, blk := sp.blk, off := sp.off, size := sp.size }] := by
+    simp only [step] at hs ⊢
+    rcases hr : s.a.alloc req with ⟨a', (e' | sp')⟩
+    · rw [hr] at hs; simp at hs
+    · rw [hr] at hs; simp at hs; subst hs; rfl
+  have hi : i < s.tab.length := by
+    by_cases c : i < s.tab.length
+    · exact c
+    · rw [List.getElem?_eq_none (by omega)] at e; simp at e
+  exact live_spans_disjoint hR (i := i) (j := s.tab.length) (h2 := ⟨true, sp.blk, sp.off, sp.size⟩) (by omega)
+    (by rw [htab, List.getElem?_append_left hi]; exact e) (by rw [htab]; simp) l rfl hb
+
+/-- **Release frees exactly the span**: releasing a live span always succeeds, kills exactly that handle and leaves every other
+entry of the table untouched (the invariant of the successor state then says its granules are free again). -/
+theorem release_ok {s : St} (h : Reachable s) {j : Nat} {hd : Handle} (e : s.tab[j]? = some hd) (l : hd.live = true) :
+    (step s (.release j)).2 = .ok ∧ (step s (.release j)).1.tab = killHandle s.tab j := by
+  have hI := reachable_inv h
+  obtain ⟨hok, _⟩ := hI.release_handle e l
+  simp only [step, e, l, Bool.not_true, Bool.false_eq_true, if_false]
+  rcases hr : s.a.release hd.blk hd.off with ⟨a', (e' | u)⟩
+  · rw [hr] at hok; simp at hok
+  · exact ⟨rfl, rfl⟩
+
+/-- **Foreign / unknown blocks are rejected without touching the state** (lookup by address fails) -/
+theorem unknown_block_rejected (a : Alloc) (blk off n : Nat) (hnone : a.findBlock blk = none) :
+    a.release blk off = (a, .error .InvalidState) ∧ a.query blk off = .error .InvalidArgument ∧
+    a.shrinkImpl blk off n = (a, .error .InvalidArgument) := by
+  simp [Alloc.release, Alloc.query, Alloc.shrinkImpl, hnone]
+
+/-- a stale span (its granule is free) cannot be shrunk: rejected, state untouched -/
+theorem stale_shrink_rejected (a : Alloc) (blk off n : Nat) (e : Err) (hq : a.query blk off = .error e) :
+    ∃ e', a.shrinkImpl blk off n = (a, .error e') := shrinkImpl_of_query_error hq
+
+/-- **Reset leaves nothing accounted**: after a reset no span is live, no allocation is counted, and every block that is kept
+has only its padding granule marked. -/
+theorem reset_empties {s : St} (h : Reachable s) (hard : Bool) :
+    (step s (.reset hard)).1.a.allocCount = 0 ∧
+    (∀ (i : Nat) (hd : Handle), (step s (.reset hard)).1.tab[i]? = some hd → hd.live = false) ∧
+    (∀ b ∈ (step s (.reset hard)).1.a.blocks, ∀ i, i < b.areaSize → (bit b.used i = true ↔ (b.pad = true ∧ i = 0))) := by
+  have hI := (reachable_inv h).reset hard
+  refine ⟨rfl, ?_, ?_⟩
+  · intro i hd h1
+    simp only [step, List.getElem?_map] at h1
+    cases ht : s.tab[i]? with
+    | none => rw [ht] at h1; simp at h1
+    | some y => rw [ht] at h1; simp at h1; rw [← h1]
+  · intro b hb i hi
+    have hu := (hI.blk b hb).1.used i hi
+    rw [hu]
+    constructor
+    · rintro (hp | ⟨st, n, ⟨k, x, h1, h2, _⟩, _⟩)
+      · exact hp
+      · simp only [List.getElem?_map] at h1
+        cases ht : s.tab[k]? with
+        | none => rw [ht] at h1; simp at h1
+        | some y => rw [ht] at h1; simp at h1; rw [← h1] at h2; simp at h2
+    · intro hp; exact Or.inl hp
+
+/-- **The allocator reports itself initialised** in every reachable state (every constructed configuration has a non-zero block
+size; C09-1 inverted this test) -/
+theorem initialized_reported {s : St} (h : Reachable s) : (step s .isinit).2 = .flag true := by
+  have := (reachable_inv h).wf.2
+  simp only [step]
+  congr 1
+  simp
+  omega
+
+/-! ### non-vacuity -/
+
+/-- the hypotheses are satisfiable: the default configuration is well formed and its initial state reachable -/
+example : Reachable (St.init (mkConfig 0 0 0 0)) := ⟨_, [], mkConfig_wf 0 0 0 0, rfl⟩
+
+/-- `alloc_ok` applies to a real request: 100 bytes on the default configuration is neither 0 nor too large -/
+example : alignUp 100 (mkConfig 0 0 0 0).gran ≠ 0 ∧ ¬ alignUp 100 (mkConfig 0 0 0 0).gran - 1 ≥ 2147483647 := by decide
+
+/-- live handles exist in reachable states: after `alloc 100` the table holds a live span (so `live_span_wellformed`,
+`live_spans_disjoint`, `release_ok` talk about something) -/
+example : ∃ sp : SpanOut, (step (St.init (mkConfig 0 0 0 0)) (.alloc 100)).1.tab = [{ live := true, blk := sp.blk, off := sp.off, size := sp.size }] := by
+  obtain ⟨sp, _, _, h3⟩ := alloc_ok (s := St.init (mkConfig 0 0 0 0)) ⟨_, [], mkConfig_wf 0 0 0 0, rfl⟩ 100 (by decide) (by decide)
+  exact ⟨sp, by simpa [St.init] using h3⟩
+
+/-- the stale-shrink theorem has instances: a query of an address in no block fails -/
+example : (Alloc.init (mkConfig 0 0 0 0)).query 7 64 = .error .InvalidArgument := rfl
 
 end AsmjitVerif.JitAlloc
